@@ -66,8 +66,11 @@ pub fn run(a: &Args) -> Report {
             prog.push(comb_decl.clone());
         }
         let ncmd = cfg.n_cmds.0 + rng.below(cfg.n_cmds.1 - cfg.n_cmds.0);
+        let mut generated: Vec<Cmd> = g.seed(&mut rng);
         for _ in 0..ncmd {
-            let c = g.command(&mut rng);
+            generated.push(g.command(&mut rng));
+        }
+        for c in generated {
             match &c {
                 Cmd::Rule { body, head, opts } => {
                     prog.push(c.to_string());
